@@ -1,6 +1,7 @@
 import OSProofs.Props.C19
 import OSProofs.Props.C19b
 import OSProofs.GenTie
+import OSProofs.GenValTie
 #print axioms OS.omegaDelta_btp_eq_btf
 #print axioms OS.compute_btp_eq_btf
 #print axioms OS.C19_btp_eq_btf_two
@@ -27,3 +28,15 @@ import OSProofs.GenTie
 #print axioms OS.Gen.lt_TMP_eq
 #print axioms OS.Gen.eq_TMP_eq
 #print axioms OS.Gen.gamma_TMP_eq
+#print axioms OS.VLangTie.exec_checkTeams
+#print axioms OS.VLangTie.exec_rateHead
+#print axioms OS.Gen.checkTeams_PL_eq
+#print axioms OS.Gen.rateHead_PL_eq
+#print axioms OS.Gen.checkTeams_BTF_eq
+#print axioms OS.Gen.rateHead_BTF_eq
+#print axioms OS.Gen.checkTeams_BTP_eq
+#print axioms OS.Gen.rateHead_BTP_eq
+#print axioms OS.Gen.checkTeams_TMF_eq
+#print axioms OS.Gen.rateHead_TMF_eq
+#print axioms OS.Gen.checkTeams_TMP_eq
+#print axioms OS.Gen.rateHead_TMP_eq
